@@ -384,6 +384,92 @@ Definition sync_dns (v : vs) (fs : faults) (st : smap dnsep) : smap dnsep * list
       end
   end.
 
+(* ------------------------------------------------------------------ lister cache vs cluster
+
+   In production the synchronization functions READ the informer cache (the lister) and WRITE to
+   the API server; the watch carries every successful write back into the cache.  [sync_cert2] /
+   [sync_dns2] keep the two apart: every lookup and the removal list use [cache], every write goes
+   to [cluster] and is answered by the API server on the cluster's own content (create of an
+   existing name: AlreadyExists; update / delete of a missing name: NotFound).  The cache is not an
+   output: the functions must not write into the objects the lister hands out (the harness compares
+   every cache object with a deep copy taken before the call).
+
+   [sync_cert] / [sync_dns] above are the case cache = cluster ("the lister reflects the cluster"),
+   proved in Proofs.v ([sync_cert2_coherent], [sync_dns2_coherent]).  That equation is the explicit
+   hypothesis of every C20 theorem; the harness establishes it by delivering the watch event of
+   every successful write -- and of nothing else -- before the next synchronization, and reports the
+   cache separately whenever it differs from the cluster. *)
+
+Definition write_then_gc2 (vb : verb) (secret : string) (c : cert) (gc : list string) (fs : faults) (cluster : smap cert)
+  : smap cert * list action * result :=
+  match pop fs with
+  | (Some f, _) => (cluster, [(vb, secret)], RFault f)
+  | (None, fs') =>
+      match vb, lookup secret cluster with
+      | VCreate, Some _ => (cluster, [(vb, secret)], RFault FExists)   (* AlreadyExists from the API server *)
+      | VUpdate, None => (cluster, [(vb, secret)], ROther)             (* NotFound *)
+      | _, _ => let '(st', lg, res) := delete_all gc fs' (insert secret c cluster) in
+                (st', (vb, secret) :: lg, res)
+      end
+  end.
+
+Definition sync_cert2 (cs : cmpset) (ord : list string -> list string) (v : vs) (fs : faults)
+           (cache cluster : smap cert) : smap cert * list action * result :=
+  match v_tls v with
+  | None => (cluster, [], ROk)
+  | Some t =>
+      match t_cm t with
+      | None => (cluster, [], ROk)
+      | Some cm =>
+          match desired_cert v t cm with
+          | None => (cluster, [], ROther)
+          | Some crt =>
+              let secret := t_secret t in
+              let gc := ord (certs_to_remove (v_uid v) secret cache) in
+              match build_certificates cs (v_uid v) secret crt cache with
+              | PNone => delete_all gc fs cluster
+              | PCreate c => write_then_gc2 VCreate secret c gc fs cluster
+              | PUpdate c => write_then_gc2 VUpdate secret c gc fs cluster
+              end
+          end
+      end
+  end.
+
+Definition sync_dns2 (v : vs) (fs : faults) (cache cluster : smap dnsep) : smap dnsep * list action * result :=
+  if negb (x_enable (v_xdns v)) then (cluster, [], ROk) else
+  match v_endpoints v with
+  | None => (cluster, [], ROther)
+  | Some eps =>
+      match valid_targets eps with
+      | None => (cluster, [], ROther)
+      | Some (targets, rtype) =>
+          let d := desired_dns v targets rtype in
+          let name := v_name v in
+          match build_dnsendpoint v d cache with
+          | DPNone => (cluster, [], ROk)
+          | DPCreate c =>
+              match pop fs with
+              | (Some FExists, _) => (cluster, [(VCreate, name)], ROther)
+              | (Some f, _) => (cluster, [(VCreate, name)], RFault f)
+              | (None, _) =>
+                  match lookup name cluster with
+                  | Some _ => (cluster, [(VCreate, name)], ROther)       (* AlreadyExists, wrapped *)
+                  | None => (insert name (norm_dns c) cluster, [(VCreate, name)], ROk)
+                  end
+              end
+          | DPUpdate u =>
+              match pop fs with
+              | (Some f, _) => (cluster, [(VUpdate, name)], RFault f)
+              | (None, _) =>
+                  match lookup name cluster with
+                  | None => (cluster, [(VUpdate, name)], ROther)         (* NotFound *)
+                  | Some _ => (insert name (norm_dns u) cluster, [(VUpdate, name)], ROk)
+                  end
+              end
+          end
+      end
+  end.
+
 (* ------------------------------------------------------------------ histories *)
 
 (* one event = the VirtualServer as it is now (any edit, or none, since the previous event; another
@@ -409,6 +495,15 @@ Fixpoint trace_dns (h : list event) (st : smap dnsep) : list (smap dnsep * vs * 
   | [] => []
   | e :: r => (st, ev_vs e, snd (fst (sync_dns (ev_vs e) (ev_dfaults e) st))) :: trace_dns r (step_dns st e)
   end.
+
+(* histories over (cache, cluster): a synchronization reads the first and writes the second; then the
+   watch delivers, i.e. the cache becomes the cluster, before the next event *)
+Definition step_cert2 (cs : cmpset) (w : smap cert * smap cert) (e : event) : smap cert * smap cert :=
+  let c' := fst (fst (sync_cert2 cs (ev_ord e) (ev_vs e) (ev_cfaults e) (fst w) (snd w))) in (c', c').
+Definition step_dns2 (w : smap dnsep * smap dnsep) (e : event) : smap dnsep * smap dnsep :=
+  let d' := fst (fst (sync_dns2 (ev_vs e) (ev_dfaults e) (fst w) (snd w))) in (d', d').
+Definition run_cert2 (cs : cmpset) (h : list event) (w : smap cert * smap cert) := fold_left (step_cert2 cs) h w.
+Definition run_dns2 (h : list event) (w : smap dnsep * smap dnsep) := fold_left step_dns2 h w.
 
 (* ------------------------------------------------------------------ what the property asks for *)
 
